@@ -3,7 +3,7 @@
    oracle that judges the implementation is itself an equivalence / a strict total order per
    orderable kind / a hash that is exactly the quotient by equality.
    Pairs and triples range over ALL abstract values (numbers, strings, bools, None, tuples,
-   lists, structs, dicts, sets, ranges); the relations are the matrices computed once in Coherence.tla.                    *)
+   lists, structs, record and enum instances, dicts, sets, ranges); the relations are the matrices computed once in Coherence.tla.                    *)
 EXTENDS Coherence
 
 CONSTANT TStep                     \* third members of triples: every TStep-th value (1 = all)
